@@ -91,11 +91,11 @@ func hexHead(b []byte, n int) string {
 // EnumSrc enumerates decision vectors: decisions whose label is in Free are enumerated
 // odometer-style across runs, all others take Fixed values (default 0).
 type EnumSrc struct {
-	Free   map[string]bool
-	Vec    []int // current values of free decisions, in order of occurrence
-	Arity  []int
-	pos    int
-	Rot    uint64 // rotating value for non-free decisions
+	Free    map[string]bool
+	Vec     []int // current values of free decisions, in order of occurrence
+	Arity   []int
+	pos     int
+	Rot     uint64 // rotating value for non-free decisions
 	NonFree func(n int, label string) int
 }
 
